@@ -608,12 +608,12 @@ void ExpressionBuilder::expr_dot(const char* id)
             throw UnknownIdentifierError(expr.get_symbol().get_name());
         }
         push_frame(dynamicFrames[expr.get_symbol().get_name()]);
-
-        if (!resolve(id, uid)) {
+        const bool found = resolve(id, uid);
+        popFrame();  // Remove that frame again
+        if (!found) {
             expr_false();
             throw UnknownIdentifierError(id);
         }
-        popFrame();  // Remove that frame again
         expression_t identifier = expression_t::create_identifier(uid, position);
 
         expr = (expression_t::create_nary(
